@@ -35,6 +35,8 @@ def run(ctx):
     ctx.rule(returned_buffer)
     ctx.rule(header)
     ctx.rule(conversions)
+    ctx.rule(field_types)
+    ctx.rule(dtype_reaches_decoder)
 
 
 # ---------------------------------------------------------------- R-C12-g711
@@ -384,3 +386,57 @@ def conversions(ctx):
         and "ULAW2PCM" in tabs and "convert" in tabs["ULAW2PCM"]
     ctx.check(ok, R2, f, loop, "A-law data goes through ALAW2PCM and mu-law data through ULAW2PCM, only when converting",
               "expansion table selection is %s" % tabs)
+
+
+
+def field_types(ctx, R="R-C12-header"):
+    """Header values are typed by their declared format: only `-i` fields become integers.  The decoder compares
+    sample_byte_format with the strings '10' / '01' and tests sample_coding by prefix, so a conversion that is not restricted
+    to `-i` turns `-s2 10` into the integer 10 and silently selects the wrong byte order."""
+    prog = ctx.prog
+    f = prog.func("_sphere.read_header")
+    ev = SymEval(prog, f, loop_first=True).run()
+    convs = []
+    for n in f.body_nodes():
+        if isinstance(n, ast.Assign) and isinstance(n.value, ast.Call) and astq.is_name(n.value.func, "int") and n.value.args and isinstance(n.value.args[0], ast.Name):
+            src = n.value.args[0].id
+            tg = [t.id for t in n.targets if isinstance(t, ast.Name)]
+            if tg and tg[0] == src:
+                convs.append(n)
+    fields = [n for n in convs if ev.reached(n) and any(isinstance(a, ast.For) for a in astq.ancestors(astq.parents(f), n))]
+    ctx.need(len(fields) >= 1, R, "the integer conversion of header field values was not found in the field loop")
+    for n in fields:
+        g = ev.guard_of(n)
+        facts = [x for x in S.walk(g) if isinstance(x, S.E) and x.op == "cmp" and x.args[0] == "==" and any(a.is_const and a.value == "-i" for a in x.args[1:])]
+        # the guard must imply fmt == '-i': specialise with the comparison false and see the guard fold to false
+        from .. import scenario as SC
+        off = SC.transform(g, lambda x: S.FALSE if (x.op == "cmp" and x.args[0] == "==" and any(a.is_const and a.value == "-i" for a in x.args[1:])) else None)
+        ok = bool(facts) and off.is_const and not S.truthy(off)
+        ctx.check(ok, R, f, n, "only fields declared -i are converted to integers (string fields such as sample_byte_format keep their text)",
+                  "the field value is converted with int() under the condition `%s`, not only for fields declared -i: `sample_byte_format -s2 10` becomes the "
+                  "integer 10, which the decoder's test against the string '10' never matches (big-endian data decoded as little-endian)" % S.show(g)[:120])
+
+
+def dtype_reaches_decoder(ctx, R="R-C12-expansion"):
+    """Whether G.711 codes are expanded is decided inside the decoder from the requested dtype; every call of
+    sphere_read_signal must therefore hand the caller's dtype on (a later .astype cannot undo an expansion)."""
+    prog = ctx.prog
+    target = prog.func("_sphere.sphere_read_signal")
+    n = 0
+    for g in prog.functions.values():
+        if g is target:
+            continue
+        for c in astq.func_calls(g):
+            try:
+                r = prog.resolve(g.module, c.func, g)
+            except Exception:
+                r = None
+            if r is not target:
+                continue
+            n += 1
+            a = c.args[1] if len(c.args) > 1 else astq.kw(c, "dtype")
+            ok = isinstance(a, ast.Name) and a.id in g.all_param_names()
+            ctx.check(ok, R, g, c, "the requested dtype is handed to the SPHERE decoder (it decides the G.711 expansion)",
+                      "sphere_read_signal is called with dtype %s: the decoder then expands 8-bit mu-law / A-law codes to 16 bits although a 1-byte dtype was "
+                      "requested, and a later cast wraps the expanded values" % (astq.text(a) if a is not None else "<none>"))
+    ctx.need(n >= 1, R, "no call of sphere_read_signal found outside _sphere.py")
